@@ -26,6 +26,7 @@ pub fn prop() -> HistProp {
         mk: |_, _, _| Box::new(C02 { nontrivial: false }),
         extra: Some((3, |_| uneven_bond_scenario_strategy(cfg_strategy()))),
         many_batches: 0,
+        zero_arrival: 0,
     }
 }
 
